@@ -367,3 +367,204 @@ Print Assumptions c09_pres_info_names_sender_in_topic.
 Print Assumptions c09_pres_labelled_run_projects.
 Print Assumptions c09_pres_unsubscribed_recv_example.
 Print Assumptions c09_pres_detached_recv_example.
+
+(* ---- the marks ACROSS TOPIC LOADS (Sys/LoadMarksC09.v: the load paths of every topic kind - initTopicP2P in each of its
+   branches, initTopicGrp / initTopicSys / initTopicMe / initTopicFnd through loadSubscribers - with the read / recv / del
+   marks they copy into Topic.perUser, and the marks slice of a p2p topic and of 'sys' on top of them).  The group-topic
+   model above reloads through Topic.load only; a p2p topic is loaded through four branches that build the two parties'
+   entries from DIFFERENT records.  Clause: "neither mark ever decreases ... in every place they are reported and stored" -
+   a reload must give every user back his OWN stored marks.  The C09 check runs the p2p / sys load-marks driver
+   (zz_verif_c09l_test.go) and evaluates loaded-marks-equal-stored, reported-marks-not-below-stored,
+   reported-marks-monotone-across-reload, stale-note-silent, marks-monotone on the IMPLEMENTATION's trace
+   (tools/props/c09load.py).
+
+   [smk s u] = (read, recv, del) of u's live subscription row as SubscriptionGet finds it; [kmk c u] = the same three
+   of u's live perUser entry; [keq s c] = every live entry of the cache carries exactly the marks of its user's live row;
+   [und s] = one row per user (the unique key of the subscriptions table); [p2p_parties s u1 u2] = the rows of a p2p topic
+   belong to its two parties (the topic name is made of the two user ids). *)
+From Tinode Require Import Sys.TopicLoad Sys.LoadMarksC09 Sys.LoadMarksC09Proofs.
+
+(* AFTER ANY LOAD - every topic kind, every branch of initTopicP2P (both subscriptions / the requester's exists and the
+   other party's is recreated / the other party's exists and the requester's is recreated / new topic), any failing store
+   call - every cached mark (read, recv, del) equals the STORED mark of that same user's row in the store the load leaves
+   behind (0 for a row the load has just created), and no entry is marked deleted. *)
+Theorem c09_load_marks_equal_stored : forall k f s n u1 u2 s' c n' ns,
+  und s -> (k = KP2P -> p2p_parties s u1 u2 /\ (t_exists s = false -> subs s = [])) ->
+  kinit_topic k f s n u1 u2 = KOk s' c n' ns ->
+  keq s' c /\ forall u p, alookup u (k_users c) = Some p -> kp_deleted p = false.
+Proof. intros. split; [eapply kinit_topic_keq; eauto|]. intros. eapply kinit_topic_live; eauto. Qed.
+
+(* ... and still so when the request that caused the load has been answered (subscriptionReply -> thisUserSub: a
+   changed want is written without marks, a new 'sys' subscriber starts from zero in cache and store), and after the
+   'sys' topic has been loaded by a restarted process. *)
+Theorem c09_load_request_marks_equal_stored : forall (k : lkind) root f s n u1 u2 sid s1 c n1 ns ns',
+  und s -> (k = LP2P -> p2p_parties s u1 u2 /\ (t_exists s = false -> subs s = [])) ->
+  kload k f s n u1 u2 = KOk s1 c n1 ns ->
+  keq (kh_st (ksub k root f s1 c n1 sid u1 ns')) (kh_ca (ksub k root f s1 c n1 sid u1 ns')).
+Proof. exact load_request_keq. Qed.
+Theorem c09_boot_marks_equal_stored : forall k s c, und s -> kboot k s = Some c -> keq s c.
+Proof. exact kboot_keq. Qed.
+(* subscriptionReply never breaks it, loaded or not *)
+Theorem c09_sub_keeps_marks_equal_stored : forall k root f s c n sid u ns,
+  keq s c -> keq (kh_st (ksub k root f s c n sid u ns)) (kh_ca (ksub k root f s c n sid u ns)).
+Proof. exact ksub_keq. Qed.
+
+(* Hence what is REPORTED after a reload is never below what is stored: {get desc} reports exactly the user's own stored
+   read mark, max(stored recv, stored read) and max(stored del, topic delID) ... *)
+Theorem c09_reload_reports_stored : forall s c n sid u p rd rc dl,
+  keq s c -> alookup u (k_users c) = Some p -> kp_deleted p = false -> is_reader (kp_mode p) = true ->
+  smk s u = Some (rd, rc, dl) ->
+  kh_out (kget_desc s c n sid u) =
+    [(sid, MetaDesc (kp_want p) (kp_given p) (k_lastid c) rd (Z.max rc rd) (Z.max dl (k_delid c)) true)].
+Proof. exact kget_desc_reports. Qed.
+
+(* ... and a read / recv note that is not above the sender's STORED mark is dropped without any effect: store, cache and
+   the number of adapter calls are as they were, nothing is relayed. *)
+Theorem c09_reload_stale_note_silent : forall f s c n sid u what seq p rd rc dl,
+  keq s c -> alookup u (k_users c) = Some p -> kp_deleted p = false -> smk s u = Some (rd, rc, dl) ->
+  (what = K_read /\ seq <= rd) \/ (what = K_recv /\ seq <= rc) ->
+  knote f s c n sid u what seq = mkKH s c n [].
+Proof. exact knote_stale_stored. Qed.
+Theorem c09_p2p_stale_note_silent : forall f s c n sid u what seq,
+  (what = K_read /\ seq <= kp_read (kget c u)) \/ (what = K_recv /\ seq <= kp_recv (kget c u)) ->
+  knote f s c n sid u what seq = mkKH s c n [].
+Proof. exact knote_stale. Qed.
+
+(* the hypotheses are satisfiable, on the seeded situation: user 1 unsubscribed (row soft-deleted with its old marks
+   7/8), user 2 has read 5 / recv 7 of 9 messages, the topic is not loaded and user 1 re-subscribes first: the load takes
+   the branch "the other party's subscription exists, the requester's is recreated"; user 2's entry carries 5 / 7, user
+   1's row and entry restart from 0; a {note read 3} of user 2 is then dropped. *)
+Definition c09_load_example_store : store :=
+  mkStore true 9 0 0 0 0 [mkSub 1 31 31 7 8 0 true; mkSub 2 31 31 5 7 1 false] [] [] [(1%N, 47%N); (2%N, 47%N)].
+Example c09_load_example :
+  und c09_load_example_store /\ p2p_parties c09_load_example_store 1 2 /\
+  exists s' c n',
+    kinit_topic KP2P NoFault c09_load_example_store 0 1 2 = KOk s' c n' true /\
+    kmk c 2 = Some (5, 7, 1) /\ smk s' 2 = Some (5, 7, 1) /\ kmk c 1 = Some (0, 0, 0) /\ smk s' 1 = Some (0, 0, 0) /\
+    knote NoFault s' c 0 3 2 K_read 3 = mkKH s' c 0 [].
+Proof.
+  split; [unfold und; cbn; repeat constructor; cbn; intuition discriminate|].
+  split; [intros r [<-|[<-|[]]]; cbn; auto|].
+  eexists _, _, _. split; [vm_compute; reflexivity|]. repeat split; vm_compute; reflexivity.
+Qed.
+
+(* The cache marks equal the stored ones after a load - NOT in every reachable state: the full statement is REFUTED by the
+   faithful model through the recorded finding stored-read-le-recv (a read note raises the cached received mark and
+   stores the read mark alone).  c09_load_marks_equal_stored / c09_load_request_marks_equal_stored are the partial
+   statement (the state right after a load). *)
+Definition c09_cache_marks_equal_stored_always_statement : Prop :=
+  forall k sm roots ua ub s h c, und s -> p2p_parties s ua ub ->
+    y_ca (fst (krun k sm roots ua ub (mkKS s None 0) h)) = Some c ->
+    keq (y_st (fst (krun k sm roots ua ub (mkKS s None 0) h))) c.
+Theorem c09_cache_marks_equal_stored_always_refuted : ~ c09_cache_marks_equal_stored_always_statement.
+Proof.
+  intros H.
+  pose (s0 := mkStore true 9 0 0 0 0 [mkSub 1 31 31 0 0 0 false; mkSub 2 31 31 0 0 0 false] [] [] [(1%N, 47%N); (2%N, 47%N)]).
+  pose (sm0 := [(1%N, 1%N); (2%N, 2%N)]).
+  pose (h0 := [(NoFault, KSub 1 false); (NoFault, KNote 1 K_read 2)]).
+  assert (und s0) as U by (unfold und; cbn; repeat constructor; cbn; intuition discriminate).
+  assert (p2p_parties s0 1 2) as PP by (intros r [<-|[<-|[]]]; cbn; auto).
+  eassert (y_ca (fst (krun LP2P sm0 [] 1 2 (mkKS s0 None 0) h0)) = Some _) as E by (vm_compute; reflexivity).
+  pose proof (H LP2P sm0 [] 1%N 2%N s0 h0 _ U PP E 1%N (2, 2, 0)) as K.
+  assert (smk (y_st (fst (krun LP2P sm0 [] 1 2 (mkKS s0 None 0) h0))) 1 = Some (2, 0, 0)) as S by (vm_compute; reflexivity).
+  rewrite S in K. assert (Some (2, 0, 0) = Some (2, 2, 0)) as X by (apply K; vm_compute; reflexivity). discriminate X.
+Qed.
+
+(* The loaders of this slice are those of the C01 load-path model (Sys/TopicLoad.v, corresponded to the code by the C01 check
+   on lastID / delID / want / given) with the marks added: forgetting read / recv / del gives exactly C01's result - same
+   store calls, same branches, same errors, same store, same counters, same modes. *)
+Theorem c09_load_refines_c01_p2p : forall f s n u1 u2, forget_r (kinit_p2p f s n u1 u2) = init_p2p f s n u1 u2.
+Proof. exact kinit_p2p_forget. Qed.
+Theorem c09_load_refines_c01_sys : forall f s n, forget_r (kinit_sys f s n) = init_sys f s n.
+Proof. exact kinit_sys_forget. Qed.
+
+(* ---- the same slice over EVERY HISTORY of a p2p topic (Sys/LoadMarksC09Hist.v): any notes with any sequence numbers,
+   publishes, unsubscriptions, re-subscriptions by EITHER party, by usrXXX or by p2pXXX name, idle unloads, restarts, any
+   failing or crashing store call, from any stored state [s] with one row per user, rows of the two parties only, no row
+   without a topic row, stored marks at most seqid ([ksinv]), seqid >= 0 and uid 0 not an account ([kbase]); the acting
+   sessions belong to the two parties ([kop_ok]). *)
+From Tinode Require Import Sys.LoadMarksC09Hist.
+From Coq Require Import Lia.
+
+(* The STORED marks never decrease: at every step of every history, neither stored mark of a party whose subscription
+   row is live before and after the step is lower afterwards - across every load branch of initTopicP2P included. *)
+Theorem c09_p2p_store_monotone : forall sm roots ua ub s h fo,
+  ua <> 0%N -> ub <> 0%N -> ksinv ua ub s -> kbase s ->
+  Forall (fun fo => kop_ok sm ua ub (snd fo)) h -> kop_ok sm ua ub (snd fo) ->
+  let x := fst (krun LP2P sm roots ua ub (mkKS s None 0) h) in
+  ksmono (y_st x) (y_st (fst (kstep_f LP2P sm roots ua ub x fo))).
+Proof.
+  intros sm roots ua ub s h fo NA NB SI KB OKh OKfo x.
+  assert (kinv ua ub (mkKS s None 0)) as K0 by (split; [exact SI|split; [exact KB|exact I]]).
+  pose proof (krun_inv sm roots ua ub NA NB h _ K0 OKh) as KI.
+  exact (proj2 (kstep_f_inv sm roots ua ub NA NB x fo KI OKfo)).
+Qed.
+
+(* The invariant behind it, in every reachable state: the store keeps its shape and, while the topic is loaded, the topic
+   row exists, 0 <= lastID <= seqid <= lastID + 1, an entry marked deleted (an unsubscribed party) has no live row, and
+   every live entry has a live row whose marks are NOT AHEAD of the cached ones, the cached marks being at most lastID. *)
+Theorem c09_p2p_store_not_ahead : forall sm roots ua ub s h,
+  ua <> 0%N -> ub <> 0%N -> ksinv ua ub s -> kbase s ->
+  Forall (fun fo => kop_ok sm ua ub (snd fo)) h ->
+  let x := fst (krun LP2P sm roots ua ub (mkKS s None 0) h) in
+  ksinv ua ub (y_st x) /\ kbase (y_st x) /\ match y_ca x with Some c => kcinv (y_st x) c | None => True end.
+Proof.
+  intros sm roots ua ub s h NA NB SI KB OKh x.
+  assert (kinv ua ub (mkKS s None 0)) as K0 by (split; [exact SI|split; [exact KB|exact I]]).
+  exact (krun_inv sm roots ua ub NA NB h _ K0 OKh).
+Qed.
+
+(* ACROSS A RELOAD, in every reachable state in which the topic is not loaded: whichever party attaches first, through
+   whichever branch of initTopicP2P, with whichever store call failing - if the topic gets loaded, then every party's
+   live cache entry carries exactly that party's own stored marks (so {get desc} reports them: c09_reload_reports_stored,
+   and a note not above them is dropped: c09_reload_stale_note_silent), the stored marks of rows that were live are
+   untouched by the load, and the reachable-state invariant holds again. *)
+Theorem c09_p2p_reload_restores_stored_marks : forall sm roots ua ub s h f u1 byname s' c n' ns,
+  ua <> 0%N -> ub <> 0%N -> ksinv ua ub s -> kbase s ->
+  Forall (fun fo => kop_ok sm ua ub (snd fo)) h ->
+  let x := fst (krun LP2P sm roots ua ub (mkKS s None 0) h) in
+  u1 = ua \/ u1 = ub ->
+  kinit_p2p f (y_st x) 0 u1 (if byname : bool then 0%N else kpeer ua ub u1) = KOk s' c n' ns ->
+  keq s' c /\ kcinv s' c /\ ksmono (y_st x) s' /\ ksinv ua ub s' /\
+  forall u p, alookup u (k_users c) = Some p -> kp_deleted p = false.
+Proof.
+  intros sm roots ua ub s h f u1 byname s' c n' ns NA NB SI KB OKh x PU LD.
+  destruct (c09_p2p_store_not_ahead sm roots ua ub s h NA NB SI KB OKh) as [SI1 [KB1 _]]. fold x in SI1, KB1.
+  assert ((if byname then 0%N else kpeer ua ub u1) = kpeer ua ub u1 \/ (if byname then 0%N else kpeer ua ub u1) = 0%N) as P2
+    by (destruct byname; auto).
+  destruct (kload_inv ua ub NA NB _ _ _ _ _ _ _ _ _ SI1 KB1 PU P2 LD) as [A [_ [C [D E]]]].
+  split; [exact E|]. split; [exact C|]. split; [exact D|]. split; [exact A|].
+  intros u p AL. eapply (kinit_topic_live KP2P); [exact LD|exact AL].
+Qed.
+
+(* the hypotheses are satisfiable: the seeded stored state and a history that unloads and reloads *)
+Example c09_p2p_hist_hyps :
+  ksinv 1 2 c09_load_example_store /\ kbase c09_load_example_store /\
+  Forall (fun fo => kop_ok [(1%N, 1%N); (2%N, 2%N)] 1 2 (snd fo))
+         [(NoFault, KSub 1 false); (NoFault, KSub 2 false); (NoFault, KNote 2 K_read 6); (NoFault, KLeave 1 true);
+          (NoFault, KLeave 2 false); (NoFault, KUnload); (NoFault, KSub 1 false); (NoFault, KGetDesc 2)].
+Proof.
+  split.
+  - split; [unfold und; cbn; repeat constructor; cbn; intuition discriminate|].
+    split; [intros r [<-|[<-|[]]]; cbn; auto|]. split; [discriminate|].
+    intros u rd rc dl H. unfold smk in H. destruct (find_sub u (subs c09_load_example_store)) as [r|] eqn:FS; [|discriminate H].
+    unfold find_sub in FS. apply find_some in FS. destruct FS as [[<-|[<-|[]]] _]; cbn in H; [discriminate H|].
+    inversion H. subst. cbn. lia.
+  - split; [split; [cbn; lia|reflexivity]|]. repeat (apply Forall_cons; [cbn; unfold party; auto|]). apply Forall_nil.
+Qed.
+
+Print Assumptions c09_load_marks_equal_stored.
+Print Assumptions c09_load_request_marks_equal_stored.
+Print Assumptions c09_boot_marks_equal_stored.
+Print Assumptions c09_sub_keeps_marks_equal_stored.
+Print Assumptions c09_reload_reports_stored.
+Print Assumptions c09_reload_stale_note_silent.
+Print Assumptions c09_p2p_stale_note_silent.
+Print Assumptions c09_load_example.
+Print Assumptions c09_cache_marks_equal_stored_always_refuted.
+Print Assumptions c09_load_refines_c01_p2p.
+Print Assumptions c09_load_refines_c01_sys.
+Print Assumptions c09_p2p_store_monotone.
+Print Assumptions c09_p2p_store_not_ahead.
+Print Assumptions c09_p2p_reload_restores_stored_marks.
+Print Assumptions c09_p2p_hist_hyps.
